@@ -37,6 +37,7 @@ RULE = ('one evaluation = one simulated run: a victim client performs a short se
 RULE += ' ' + "In one case in seven (Cache / FanoutCache / DjangoCache targets with an evicting policy) the size limit is put at the present volume before the call, so the call's write also evicts (cull_limit 1-2)."
 RULE += ' ' + 'A lookup under a recency / frequency policy that is answered as in the baseline must also be recorded as in the baseline (access count, access time).'
 RULE += ' ' + 'DjangoCache targets also call get_many and has_key; a lookup that needs no write is flagged when it takes as long as the lock is held.'
+RULE += ' ' + 'Index targets also compare with a mapping and list their keys.'
 ASSUMPTIONS = ['the holder is a raw connection holding BEGIN IMMEDIATE (what a long transaction, check() or a slow writer in another process looks like)',
                'SQLite busy timeout is emulated event-driven in virtual time']
 PROBES = ('lock_taken', 'timeout_raised', 'failure_value', 'retry_waited', 'lock_before_begin_after_file', 'lockfree_lookup_under_lock',
